@@ -9,7 +9,11 @@ tie T-dump : harness/cmd/c20mappar (-race) runs the REAL funcutil.MapParallel on
 racer      : harness/cmd/c20racer (-race) runs the REAL taint driver (taint.Analyze) on testdata programs x option
              combinations; every race the detector reports must be a conflicting unordered pair of the matrix
              (dumped from Coq by vm_compute), report files must be complete at return and equal across identical runs,
-             no goroutine may outlive the analysis
+             no goroutine may outlive the analysis; one scenario re-runs the intra-procedural pass on the same state
+             (as the cli's summarize/rebuild does) under a wall-clock watchdog
+skeleton   : harness/cmd/c20skel regenerates the synchronisation skeleton (go/defer/chan/Lock/Wait/atomic tokens) of the
+             anchored functions from the Go AST; it must equal tools/props/c20_skeleton.txt, the skeleton the models were
+             written from (T-gen); whether BuildGraph contains a go statement selects the matrix variant (fixed or not)
 """
 import os
 import re
@@ -22,12 +26,14 @@ GEN = "c20gen"            # a generated program whose functions all read and wri
 PROGRAMS_QUICK = [GEN, "closures", "basic"]
 PROGRAMS_THOROUGH = [GEN, "globals", "closures", "basic", "example1", "interfaces", "fields"]
 # run specs of c20racer; runs without report-summaries first, so that a leftover writer goroutine cannot disturb them
-RUNS_QUICK = {GEN: "none;od,rc,rp;nr=0;rs;rs;rs,rc,rp,nr=3",
-              "closures": "od,rc,rp;nr=2;rs,od;rs,od",
+RUNS_QUICK = {GEN: "none;od,rc,rp;nr=0;nr=2,twice;rs;rs;rs,rc,rp,nr=3",
+              "closures": "od,rc,rp;rs,od;rs,nr=2",
               "basic": "rs;rs"}
-RUNS_THOROUGH = "none;none;rc,rp;rc,rp;od;od,rc,rp;nr=0;nr=1;nr=5;rs;rs;rs;rs,rc,rp;rs,od;rs,od;rs,nr=0;rs,nr=0;rs,nr=7,rc"
+RUNS_THOROUGH = ("none;none;rc,rp;rc,rp;od;od,rc,rp;nr=0;nr=1;nr=5;nr=0,twice;nr=3,twice;od,nr=2,twice;rs;rs;rs;rs,rc,rp;rs,od;rs,od;"
+                 "rs,nr=0;rs,nr=0;rs,nr=7,rc;rs,nr=2,twice")
 
-KNOWN_KEY = "report-summaries-writer"
+KNOWN_KEY = "report-summaries-writer"      # repaired in /repo d79ddc0 (a `fixed:` line); reported again if it comes back
+SKELETON = os.path.join(os.path.dirname(os.path.abspath(__file__)), "c20_skeleton.txt")
 
 
 # ------------------------------------------------------------------------------------------ generated program
@@ -82,8 +88,8 @@ def opts_of(spec):
     return ("rs" in o, "rc" in o, "rp" in o, "od" in o)
 
 
-def dump_matrix(work, combos):
-    """racy_named (analyzer rs rc rp od false) for every option combination, computed by coqc (vm_compute).
+def dump_matrix(work, combos, fixed):
+    """racy_named (analyzer rs rc rp od fixed) for every option combination, computed by coqc (vm_compute).
     -> {combo: set of (stepA, stepB, object, modeA, modeB)}"""
     vf = os.path.join(work, "C20Matrix.v")
     b = lambda x: "true" if x else "false"
@@ -91,7 +97,7 @@ def dump_matrix(work, combos):
         f.write("From Coq Require Import String List.\nFrom Argot Require Import Model.Conc.\nOpen Scope string_scope.\n")
         for c in combos:
             f.write('Goal True. idtac "@@BEGIN %s". Abort.\n' % "".join("1" if x else "0" for x in c))
-            f.write("Eval vm_compute in racy_named (analyzer %s %s %s %s false).\n" % tuple(b(x) for x in c))
+            f.write("Eval vm_compute in racy_named (analyzer %s %s %s %s %s).\n" % (tuple(b(x) for x in c) + (b(fixed),)))
             f.write('Goal True. idtac "@@END". Abort.\n')
     rc, out = vlib.sh(["coqc", "-Q", os.path.join(vlib.COQ, "theories"), "Argot", vf], timeout=900, cwd=work)
     if rc != 0:
@@ -374,6 +380,22 @@ def run(chk):
 
     lap("mappar_model")
     # ---------------------------------------------------------------- (2) racer: the real taint driver under -race
+    # T-gen: the synchronisation skeleton of the anchored functions, regenerated from the Go AST
+    vlib.build_harness(["c20skel"])
+    rc, skel, err = vlib.sh2([os.path.join(vlib.BIN, "c20skel"), "-repo", vlib.REPO], timeout=300)
+    if rc != 0:
+        raise vlib.BuildError("c20skel failed", err[-3000:])
+    open(os.path.join(work, "skeleton.txt"), "w").write(skel)
+    want_skel = dict(l.split(": ", 1) if ": " in l else (l.rstrip(":"), "") for l in open(SKELETON).read().splitlines() if l.strip())
+    have_skel = dict(l.split(": ", 1) if ": " in l else (l.rstrip(":"), "") for l in skel.splitlines() if l.strip())
+    skel_diff = ["%s: recorded [%s] now [%s]" % (k, want_skel.get(k, "<absent>").strip(), have_skel.get(k, "<absent>").strip())
+                 for k in sorted(set(want_skel) | set(have_skel)) if want_skel.get(k, "").strip() != have_skel.get(k, "").strip()]
+    # the matrix variant tied to the code: BuildGraph without a go statement = the repaired variant
+    bg = have_skel.get("analysis/dataflow/inter_procedural.go InterProceduralFlowGraph.BuildGraph", "")
+    fixed = "go{" not in bg and "go-call" not in bg
+    chk.cov["matrix_variant"] = "fixed (summaries report written synchronously)" if fixed else "detached report-summaries writer goroutine"
+    chk.cov["sync_skeleton_functions"] = len(have_skel)
+    lap("skeleton")
     lines = source_lines(vlib.REPO)
     programs = PROGRAMS_QUICK if quick else PROGRAMS_THOROUGH
     gendir = make_gen(work, chk.seed)
@@ -381,12 +403,13 @@ def run(chk):
     progdirs = [(p, d) for p, d in progdirs if os.path.isdir(d)]
     specs = {p: (RUNS_QUICK.get(p, "none;rs") if quick else RUNS_THOROUGH) for p, _ in progdirs}
     combos = sorted(set(opts_of(s) for p in specs for s in specs[p].split(";")))
-    matrix = dump_matrix(work, combos)
+    matrix = dump_matrix(work, combos, fixed)
     lap("matrix_dump")
     chk.cov["matrix_racy_pairs"] = {"".join("1" if x else "0" for x in c): len(v) for c, v in matrix.items()}
 
     import subprocess
     procs = []
+    progdir_of = dict(progdirs)
     for p, d in progdirs:
         rl = os.path.join(work, "racer-%s.race" % p)
         env = dict(vlib.GOENV, GORACE="log_path=%s exitcode=0 halt_on_error=0" % rl)
@@ -413,6 +436,21 @@ def run(chk):
         out = open(outp).read()
         errtxt = open(errp).read()
         crash = re.search(r"^(panic:|fatal error:).*", errtxt, flags=re.M)
+        hang = re.search(r"^(\d+) HANG (.*)$", out, flags=re.M)
+        if hang:
+            found_concrete = True
+            last = re.findall(r"^(\d+) BEGIN (\S*)", out, flags=re.M)
+            spec = last[-1][1] if last else ""
+            stacks = "\n".join(l.split(" L ", 1)[1] for l in out.splitlines() if " L " in l and l.split(" ", 1)[0] == hang.group(1))
+            blocked = sorted(set(re.findall(r"^(github\.com/awslabs/ar-go-tools/\S+)\(", stacks, flags=re.M)))
+            locks = [b for b in blocked if re.search(r"addWriteLoc|addReadLoc|AddError|CheckError|HasErrors|GlobalNode", b)]
+            site = (locks or blocked or ["?"])[0].split("/")[-1]
+            dd = chk.replay_dir("analysis-deadlock-" + p)
+            write_racer_replay(dd, p, d, spec, "the analysis did not finish within the wall-clock bound: %s\nblocked in: %s\n\n%s"
+                               % (hang.group(2), ", ".join(b.split("/")[-1] for b in blocked[:12]), stacks[:12000]))
+            chk.violation("analysis-deadlock:" + site, "the taint driver hangs on %s [%s] in phase %s (blocked in %s)"
+                          % (p, spec, hang.group(2).split(" goroutines=")[0], site), dd)
+            continue
         if pr.returncode != 0 and "LOADED" in out and crash:
             found_concrete = True
             dd = chk.replay_dir("analysis-crash-" + p)
@@ -506,16 +544,17 @@ def run(chk):
         p, spec, what, raw = known_symptoms[0]
         d = chk.replay_dir(KNOWN_KEY)
         with open(os.path.join(d, "replay.txt"), "w") as f:
-            f.write("finding %s: with report-summaries the goroutine started in BuildGraph (analysis/dataflow/inter_procedural.go, 'go func()' at line %d)\n"
-                    "is never joined: it ranges over g.Summaries and prints the summary graphs while STEP 3 and the visitor modify them, and the deferred\n"
-                    "summariesFile.Close() runs when BuildGraph returns, so the report is truncated and differs from run to run.\n\n"
+            f.write("%s (repaired in /repo d79ddc0, observed again): with report-summaries the summaries report is written by a goroutine started in\n"
+                    "BuildGraph (analysis/dataflow/inter_procedural.go, go statement at line %d) that is not joined: it ranges over g.Summaries and prints the\n"
+                    "summary graphs while STEP 3 and the visitor modify them, and the deferred summariesFile.Close() runs when BuildGraph returns, so the\n"
+                    "report is truncated and differs from run to run.\n\n"
                     "symptoms observed in this run (%d):\n" % (KNOWN_KEY, lines["go"], len(known_symptoms)))
             for s in known_symptoms[:40]:
                 f.write("  %s [%s]: %s\n" % s[:3])
             f.write("\nfirst race report / stack:\n%s\n\n" % next((s[3] for s in known_symptoms if s[3]), ""))
             f.write("re-run:\n  GORACE='log_path=/tmp/c20race exitcode=0' %s -dir %s/analysis/taint/testdata/%s -reports /tmp/c20rep -runs 'rs;rs'\n"
                     "  (binary built by: python3 tools/check.py C20; or cd harness && go build -race -tags verif -o ../build/bin-race/ ./cmd/c20racer)\n"
-                    "proposed fix: proposed_fixes/C20-report-summaries.diff\n" % (os.path.join(binr, "c20racer"), vlib.REPO, p))
+                    "the repair: proposed_fixes/C20-report-summaries.diff\n" % (os.path.join(binr, "c20racer"), progdir_of[p]))
         chk.violation(KNOWN_KEY, "report-summaries: detached writer goroutine races with BuildGraph step 3 / the visitor and the summaries "
                       "report is incomplete when the analysis returns (%d symptoms, e.g. %s [%s]: %s)" % (len(known_symptoms), p, spec, what), d)
     else:
@@ -525,6 +564,19 @@ def run(chk):
             chk.notes.append("known finding %s no longer observed in %d report-summaries runs (repaired?): the matrix without the "
                              "fix (report_writer_refuted) no longer describes the code" % (KNOWN_KEY, len(rs_runs)))
 
+    if known_symptoms:
+        found_concrete = True
+    if skel_diff and not found_concrete:
+        d = chk.replay_dir("sync-skeleton")
+        with open(os.path.join(d, "replay.txt"), "w") as f:
+            f.write("T-gen tie broken: the synchronisation skeleton of the functions Model/MapPar.v and Model/Conc.v were written from has changed;\n"
+                    "the theorems of Properties/C20.v no longer describe this code, and no run exhibited a concrete failure.\n\n%s\n\n"
+                    "re-run: %s -repo %s | diff - %s\n(after re-reading the code and updating the models: regenerate the recorded skeleton with that command)\n"
+                    % ("\n".join(skel_diff), os.path.join(vlib.BIN, "c20skel"), vlib.REPO, SKELETON))
+        chk.violation("sync-skeleton-changed:" + skel_diff[0].split(":")[0].split(" ")[-1],
+                      "synchronisation structure of the modelled code changed (%d functions), e.g. %s" % (len(skel_diff), skel_diff[0]), d, no_input=True)
+    elif skel_diff:
+        chk.notes.append("synchronisation skeleton differs from the recorded one: " + "; ".join(skel_diff[:5]))
     chk.proof_broken(failed, found_concrete)
 
     chk.cov["evaluations"] = stats["mappar_cases"] + stats["model_runs"] + stats["racer_runs"]
